@@ -222,7 +222,7 @@ pub fn c15_cli(ctx: &mut Ctx, rng: &mut Rng, xdir: &str) {
         }
         ctx.eval();
         if !run_ok(&mut g) {
-            ctx.violation("dictgen_cli_failed", "C15:cli:dictgen_failed", "dictgen failed on a model written by train".into(), ts.texts());
+            ctx.violation("dictgen_cli_failed", &format!("{}:cli:dictgen_failed", ctx.prop), "dictgen failed on a model written by train".into(), ts.texts());
             let _ = std::fs::remove_dir_all(&dir);
             return;
         }
@@ -258,7 +258,7 @@ pub fn c15_cli(ctx: &mut Ctx, rng: &mut Rng, xdir: &str) {
         None
     };
     if let Some(f) = same(&outs[0], &outs[1]) {
-        ctx.violation("train_dictgen_pipeline_not_reproducible", "C15:cli:two_runs_differ", format!("train + dictgen run twice in separate processes on the same inputs: {f} differs"), ts.texts());
+        ctx.violation("train_dictgen_pipeline_not_reproducible", &format!("{}:cli:two_runs_differ", ctx.prop), format!("train + dictgen run twice in separate processes on the same inputs: {f} differs"), ts.texts());
         let _ = std::fs::remove_dir_all(&dir);
         return;
     }
@@ -272,7 +272,7 @@ pub fn c15_cli(ctx: &mut Ctx, rng: &mut Rng, xdir: &str) {
             match same(&f, &outs[0]) {
                 None => ctx.bucket("cli_files_equal_in_process_files"),
                 Some(name) => {
-                    ctx.violation("files_generated_by_the_tools_differ_from_in_memory_generation", "C15:cli:differs_from_in_memory", format!("{name}: train|dictgen (through write_model/read_model) vs train + generate in one process"), ts.texts());
+                    ctx.violation("files_generated_by_the_tools_differ_from_in_memory_generation", &format!("{}:cli:differs_from_in_memory", ctx.prop), format!("{name}: train|dictgen (through write_model/read_model) vs train + generate in one process"), ts.texts());
                     let _ = std::fs::remove_dir_all(&dir);
                     return;
                 }
@@ -280,6 +280,9 @@ pub fn c15_cli(ctx: &mut Ctx, rng: &mut Rng, xdir: &str) {
         }
     }
     ctx.bucket("cli_pipeline_train_dictgen_twice");
+    if with_user {
+        ctx.bucket("cli_pipeline_with_user_lexicon_and_conn_id_info");
+    }
     ctx.distinct(hash_bytes(&outs[0].lex) ^ hash_bytes(&outs[0].matrix));
     if ctx.want_sample() {
         ctx.sample(json!({"pipeline": "train -> dictgen (x2, separate processes) vs in-process train + generate", "lex_rows": sorted(&outs[0].lex).len(), "with_user_lexicon": with_user}));
